@@ -34,6 +34,8 @@ def run(cx: Cx):
         _check_query(cx, cx.fn(f"{DW}.{name}"), manhattan)
     _check_centre(cx)
     _check_dispatch(cx)
+    from .common import check_overrides_forward
+    check_overrides_forward(cx, DW, ['get_moore_neighbours', 'get_neumann_neighbours', 'get_neighbours', '_get_cell_pos_as_tuple'])
     from .common import check_pure, check_result_fresh
     for name in ('get_moore_neighbours', 'get_neumann_neighbours', 'get_neighbours', '_get_cell_pos_as_tuple'):
         check_pure(cx, f"{DW}.{name}")
@@ -55,6 +57,12 @@ def _check_query(cx: Cx, fn, manhattan: bool):
     cx.floor(f"{fn.name}: paths through all three loops", len(full), 1)
     if not full:
         return
+    for p in paths:
+        if p.end == 'return' and not [e for e in p.events if e.kind == 'loop' and not e.loops]:
+            cx.violation('R-ITER', fn.qualname, 'every-answer-visits-the-clipped-ball',
+                         f"{fn.name} returns on a path [{p.cond!r}] without running the three cell loops: cells (or the centre when "
+                         f"incl_center is set) are missing from that answer", where=cx.where(fn, p.last.line), path=p.lines())
+            return
     # the centre term
     centre = None
     for e in full[0][0].events:
@@ -281,6 +289,12 @@ def _check_dispatch(cx: Cx):
     ok = set()
     ps = cx.walker.paths(fn, WalkOptions(unroll=1, callee_raises=False))
     for p in ps:
+        if p.end == 'return' and not any(implies(p.cond, mk_cmp(mode, '==', Const(k))) is None for k in table):
+            cx.violation('R-FWD', fn.qualname, 'every-answer-comes-from-the-modes-own-query',
+                         f"get_neighbours returns on a path [{p.cond!r}] that has not established which mode was asked for: the "
+                         f"answer does not come from that mode's query (a shortcut valid for one metric is wrong for the other)",
+                         where=cx.where(fn, p.last.line), path=p.lines())
+            return
         for key, target in table.items():
             if implies(p.cond, mk_cmp(mode, '==', Const(key))) is None:
                 calls = [e for e in p.events if e.kind == 'call' and any(t.qualname == target for t in e.data.get('targets', []))]
